@@ -182,6 +182,8 @@ def match_known(known, pid, failure):
             ok = False
         if "oracle" in sig and failure.get("oracle") != sig["oracle"]:
             ok = False
+        if "what" in sig and failure.get("what") != sig["what"]:
+            ok = False
         if ok:
             return k
     return None
